@@ -333,7 +333,8 @@ Theorem multi_run_station_transcripts cfg s0 sc s' r :
   forall i st, nth_error (sys_st s') i = Some st ->
   nth_error cfg i = Some (st_p st, st_apps0 st) /\
   transcript st = model_transcript A ops (st_p st) (st_apps0 st) (station_inputs st) /\
-  Forall rec_poll (st_log st).
+  Forall rec_poll (st_log st) /\
+  fdl_new (st_p st) = Ok (st_f0 st).
 Proof.
   intros H0 E i st Hi.
   destruct (multi_run_inv A ops M unit (fun _ _ => tt) (fun _ _ => True) (I_b cfg) (F_b cfg)
@@ -343,7 +344,7 @@ Proof.
   - clear. induction sc; cbn; auto.
   - apply I_b_init. exact H0.
   - exact E.
-  - destruct (Hf _ _ Hi) as ((Hn & He) & Hc & Hp). split; [exact Hc|]. split; [|exact Hp].
+  - destruct (Hf _ _ Hi) as ((Hn & He) & Hc & Hp). split; [exact Hc|]. split; [|split; [exact Hp|exact Hn]].
     unfold transcript, model_transcript. rewrite Hn, He. reflexivity.
 Qed.
 
@@ -586,3 +587,232 @@ Proof.
 Qed.
 
 End Composed.
+
+(* ------------------------------------------------------------------------------------------ *)
+(* (d) the station-local halves of C01 / C13 / C06 in the composed system.
+   The one-step theorems of Properties/C01.v, C06.v, C13.v quantify over ALL station states; every poll
+   record of every station of a composed run is such a step (rec_poll), so they hold of every poll of the
+   composed system without any hypothesis; where a theorem needs parameters the builder can produce
+   the hypotheses of (a) give them.  The history theorems of C13 (visits) hold of every station's history. *)
+
+Section ComposedD.
+Variable A : Type.
+Variable ops : app_ops A.
+Variable M : medium.
+Notation station := (station A).
+Notation multi_run := (multi_run A ops M).
+
+(* ---- C01: idle time before each transmission, who may transmit ---- *)
+
+(* No hypotheses (any medium, any parameters, any applications, any schedule, panicking or not): in every
+   poll in which a station hands something to its PHY, its PHY had reported "not busy", and the station's
+   last_bus_activity - the latest RX growth / received telegram / predicted end of its own transmission it
+   has recorded - was known and more than the synchronisation pause of 33 bit times old. *)
+Theorem multi_c01_sync_pause cfg s0 sc s' r :
+  multi_init A cfg = Ok s0 -> multi_run s0 sc = (s', r) ->
+  forall i st, nth_error (sys_st s') i = Some st ->
+  forall now busy nb rxb f f' o calls wire,
+  In (SPoll now busy nb rxb f f' o calls) (st_log st) -> tx o = Some wire ->
+  busy = false /\ exists l, f_lba f = Some l /\ l + p_bits_to_time (f_p f) sync_pause_bits < now.
+Proof.
+  intros E0 E i st Hst now busy nb rxb f f' o calls wire Hin Htx.
+  destruct (multi_run_station_transcripts A ops M _ _ _ _ _ E0 E _ _ Hst) as (_ & _ & Hp & _).
+  rewrite Forall_forall in Hp. destruct (Hp _ Hin) as (apps & apps' & Ep).
+  split.
+  - destruct (poll_bk A ops now _ _ _ _ _ _ _ Ep) as (_ & _ & _ & L & _). rewrite Htx in L. cbn [tx_busy] in L. tauto.
+  - exact (poll_tx_sync_pause A ops _ _ _ _ _ _ _ _ _ Ep Htx).
+Qed.
+
+(* With the hypotheses of (a): the state before a transmitting poll is one of those of C01_who_may_transmit
+   (`may_transmit`: token-holding state, PassToken, CheckTokenPass after a silent slot time, a pending status
+   request addressed to the station, or the claim after the station's own silence time-out), with the
+   station's configured parameters. *)
+Theorem multi_c01_who_may_transmit cfg s0 sc s' r :
+  medium_bytes M -> apps_total A ops -> cfg_valid A cfg -> sched_time_ok sc ->
+  multi_init A cfg = Ok s0 -> multi_run s0 sc = (s', r) ->
+  forall i st, nth_error (sys_st s') i = Some st ->
+  forall now busy nb rxb f f' o calls wire,
+  In (SPoll now busy nb rxb f f' o calls) (st_log st) -> tx o = Some wire ->
+  f_p f = st_p st /\ may_transmit f now.
+Proof.
+  intros HM Ha Hv Hs E0 E i st Hst now busy nb rxb f f' o calls wire Hin Htx.
+  destruct (multi_run_station_transcripts A ops M _ _ _ _ _ E0 E _ _ Hst) as (_ & _ & Hp & _).
+  rewrite Forall_forall in Hp. destruct (Hp _ Hin) as (apps & apps' & Ep).
+  destruct (multi_run_records_rep A ops M HM Ha _ _ _ _ _ Hv Hs E0 E _ _ Hst _ _ _ _ _ _ _ _ Hin) as (HR & Hfp).
+  split; [exact Hfp|]. destruct (bv_timeouts _ (rep_p _ _ HR)) as (H1 & H2).
+  exact (poll_who A ops _ _ _ _ _ _ _ _ _ Ep Htx H1 H2).
+Qed.
+
+(* ---- C13: the hold-time rule ---- *)
+
+(* No hypotheses: the transmit callbacks of every poll of every station are of one priority class; if there
+   are any, either now < end_token_hold_time (normal round) or the hold time is over, only high-priority
+   telegrams are asked for and the visit had not had a round yet (C13_hold_rule_poll). *)
+Theorem multi_c13_hold_rule cfg s0 sc s' r :
+  multi_init A cfg = Ok s0 -> multi_run s0 sc = (s', r) ->
+  forall i st, nth_error (sys_st s') i = Some st ->
+  forall now busy nb rxb f f' o calls,
+  In (SPoll now busy nb rxb f f' o calls) (st_log st) ->
+  exists hp, Forall (prio_of hp) calls /\
+    (asks calls ->
+     if hp then (exists tk fa, f_state f = UseToken tk fa false) /\ f_end_tht f' <= now
+     else now < f_end_tht f').
+Proof.
+  intros E0 E i st Hst now busy nb rxb f f' o calls Hin.
+  destruct (multi_run_station_transcripts A ops M _ _ _ _ _ E0 E _ _ Hst) as (_ & _ & Hp & _).
+  rewrite Forall_forall in Hp. destruct (Hp _ Hin) as (apps & apps' & Ep).
+  exact (poll_hold_rule A ops _ _ _ _ _ _ _ _ Ep).
+Qed.
+
+(* the history of a station in the sense of Proofs/C15Proofs.v / C13Visits.v, read off its log *)
+Definition ev_of_rec (r : srec) : C15Proofs.event A :=
+  match r with
+  | SApi ApiOffline _ _ => C15Proofs.EvOffline A
+  | SPoll now busy _ rxb _ _ _ _ => C15Proofs.EvPoll A now (mkPhyIn busy rxb)
+  | _ => C15Proofs.EvOnline A
+  end.
+Definition hitems_of_rec (r : srec) : list hitem :=
+  match r with
+  | SApi ApiOffline _ _ => [HReset]
+  | SPoll now _ _ _ _ f' _ calls => map HCall calls ++ [HEnd now f']
+  | _ => []
+  end.
+Definition station_events (st : station) : list (C15Proofs.event A) := map ev_of_rec (st_log st).
+Definition station_hitems (st : station) : list hitem := flat_map hitems_of_rec (st_log st).
+
+Lemma run_snoc evs e : forall f apps f1 apps1 h1 f2 apps2 h2,
+  C15Proofs.run A ops f apps evs = Ok (f1, apps1, h1) -> C15Proofs.step A ops f1 apps1 e = Ok (f2, apps2, h2) ->
+  C15Proofs.run A ops f apps (evs ++ [e]) = Ok (f2, apps2, h1 ++ h2).
+Proof.
+  induction evs as [|x tl IH]; intros f apps f1 apps1 h1 f2 apps2 h2 H1 H2; cbn [C15Proofs.run app] in *.
+  - injection H1 as <- <- <-. rewrite H2. cbn [bind]. rewrite app_nil_r. reflexivity.
+  - destruct (C15Proofs.step A ops f apps x) as [[[fa appsa] ha]| |]; cbn [bind] in *; try discriminate H1.
+    destruct (C15Proofs.run A ops fa appsa tl) as [[[fb appsb] hb]| |] eqn:Eb; cbn [bind] in *; try discriminate H1.
+    injection H1 as <- <- <-. rewrite (IH _ _ _ _ _ _ _ _ Eb H2). cbn [bind]. rewrite app_assoc. reflexivity.
+Qed.
+
+Definition I_h (_ : unit) (_ : nat) (st : station) : Prop :=
+  C15Proofs.run A ops (st_f0 st) (st_apps0 st) (station_events st) = Ok (st_f st, st_apps st, station_hitems st).
+
+Lemma I_h_step x i a h st st' hr r : True -> I_h x i st -> station_step A ops M h i st a = (st', hr, r) ->
+  True /\ (r = Ok tt -> I_h tt i st').
+Proof.
+  intros _ Hi E. split; [exact I|]. intros ->.
+  destruct (station_step_id A ops M _ _ _ _ _ _ _ E) as (Ip & If0 & Ia0).
+  destruct (station_step_log A ops M _ _ _ _ _ _ _ E) as (rec & Elog & Hrec).
+  unfold I_h, station_events, station_hitems in *. rewrite If0, Ia0, Elog, map_app, flat_map_app. cbn [map flat_map]. rewrite app_nil_r.
+  eapply run_snoc; [exact Hi|].
+  destruct a as [| |now]; destruct rec as [[] f f'|now' busy nb rxb f f' o calls|[] f|now' busy nb];
+    try contradiction; cbn [ev_of_rec hitems_of_rec C15Proofs.step].
+  - destruct Hrec as (-> & Ea & <- & -> & _). rewrite Ea. reflexivity.
+  - destruct Hrec as (-> & Ea & <- & -> & _). rewrite Ea. reflexivity.
+  - destruct Hrec as (-> & _ & -> & -> & Ea & <- & _). rewrite Ea. reflexivity.
+Qed.
+
+Lemma mono_weaken (evs : list (C15Proofs.event A)) : forall tl tl', tl' <= tl -> mono tl evs -> mono tl' evs.
+Proof.
+  induction evs as [|e r IH]; intros tl tl' Hle H; [exact I|].
+  destruct e as [now pin| | |g]; cbn [mono] in *; try (eapply IH; eassumption).
+  destruct H as (H1 & H2). split; [lia|exact H2].
+Qed.
+
+Lemma ins_ok_mono lg : forall tl, ins_ok tl (map ins_of_rec lg) -> mono tl (map ev_of_rec lg).
+Proof.
+  induction lg as [|x r IH]; intros tl H; [exact I|]. cbn [map].
+  destruct x as [[] f f'|now busy nb rxb f f' o calls|[] f|now busy nb]; cbn [ins_of_rec ev_of_rec ins_ok mono] in *;
+    try (apply IH; exact H).
+  - destruct H as (H1 & _ & _ & H2). split; [exact H1|apply IH; exact H2].
+  - destruct H as (H1 & _ & _ & H2). apply (mono_weaken _ now tl); [lia|]. apply IH. exact H2.
+Qed.
+
+(* With per-station increasing poll times and a medium that delivers octets: in a run that returned, the
+   history of every station (callbacks, state after each poll, re-creations) is a `station_history` of
+   Proofs/C13Visits.v - the hypothesis of C13_rotation_bound_stations about each station. *)
+Theorem multi_c13_station_history cfg s0 sc s' :
+  medium_bytes M -> sched_ok (fun _ => 0) sc ->
+  multi_init A cfg = Ok s0 -> multi_run s0 sc = (s', Ok tt) ->
+  forall i st, nth_error (sys_st s') i = Some st ->
+  C15Proofs.run A ops (st_f0 st) (st_apps0 st) (station_events st) = Ok (st_f st, st_apps st, station_hitems st) /\
+  station_history (st_p st) (station_hitems st).
+Proof.
+  intros HM Hs E0 E i st Hst.
+  destruct (multi_run_station_transcripts A ops M _ _ _ _ _ E0 E _ _ Hst) as (_ & _ & _ & Hn).
+  pose proof (multi_run_station_inputs_ok A ops M HM _ _ _ _ _ E0 Hs E _ _ Hst) as Hok.
+  destruct (multi_run_inv A ops M unit (fun _ _ => tt) (fun _ _ => True) I_h (fun _ _ => True)
+              ltac:(intros; exact I)
+              ltac:(intros [] ii aa hh stt stt' hrr rr; apply I_h_step)
+              ltac:(intros [] ii aa jj stt _ HH; exact HH) sc tt s0 s' (Ok tt)) as (_ & Hi).
+  - clear. induction sc; cbn; auto.
+  - intros j stj Hj. unfold multi_init in E0. destruct (multi_init_stations A cfg) as [l| |] eqn:El; cbn [bind] in E0; try discriminate E0.
+    injection E0 as <-. cbn [sys_st] in Hj. destruct (multi_init_stations_spec A _ _ El _ _ Hj) as (p & apps & _ & _ & ->). reflexivity.
+  - exact E.
+  - assert (Hx : fold_left (fun (_ : unit) (_ : sitem) => tt) sc tt = tt) by (destruct (fold_left _ sc tt); reflexivity).
+    specialize (Hi eq_refl i st Hst). rewrite Hx in Hi. split; [exact Hi|].
+    exists A, ops, (st_f0 st), (st_apps0 st), (station_events st), (st_f st), (st_apps st).
+    split; [exact Hn|]. split; [apply ins_ok_mono; exact Hok|exact Hi].
+Qed.
+
+(* ... hence (C13_station_visits_ok, C13_visits_linked) every token visit of every station of the composed
+   system obeys the hold rule: previous token time < token time; every round of application calls lies
+   after the arrival and is either a normal round before the deadline or the single high-priority-only round
+   after it; the deadline is one number per visit and <= previous token time + TTR; consecutive visits are
+   linked (the next visit's previous token time is this visit's token time, or 0 after a re-creation). *)
+Theorem multi_c13_visits_ok cfg s0 sc s' :
+  medium_bytes M -> cfg_valid A cfg -> sched_ok (fun _ => 0) sc ->
+  multi_init A cfg = Ok s0 -> multi_run s0 sc = (s', Ok tt) ->
+  forall i st, nth_error (sys_st s') i = Some st ->
+  Forall (sv_ok (token_rotation_time (st_p st))) (visits_of (station_hitems st)) /\
+  linked (visits_of (station_hitems st)).
+Proof.
+  intros HM Hv Hs E0 E i st Hst.
+  destruct (multi_c13_station_history _ _ _ _ HM Hs E0 E _ _ Hst) as (Hrun & _).
+  destruct (multi_run_station_transcripts A ops M _ _ _ _ _ E0 E _ _ Hst) as (Hc & _ & _ & Hn).
+  pose proof (multi_run_station_inputs_ok A ops M HM _ _ _ _ _ E0 Hs E _ _ Hst) as Hok.
+  pose proof (cfg_valid_nth A _ _ _ _ Hv Hc) as Hbv. destruct (bv_ranges _ Hbv) as (_ & _ & (Hsl & _) & _).
+  pose proof (ins_ok_mono _ _ Hok) as Hm. split.
+  - exact (station_visits_ok A ops _ _ _ _ _ _ _ Hsl Hn Hm Hrun).
+  - exact (visits_linked A ops _ _ _ _ _ _ _ Hsl Hn Hm Hrun).
+Qed.
+
+(* ---- C06: the claim needs silence, back-off ---- *)
+
+(* With the hypotheses of (a): a poll takes a station into ClaimToken only if no new receive bytes arrived
+   in that poll and the station's last recorded bus activity is at least its own time-out
+   (6 + 2 * TS) * Tslot old (C06_claim_needs_silence). *)
+Theorem multi_c06_claim_needs_silence cfg s0 sc s' r :
+  medium_bytes M -> apps_total A ops -> cfg_valid A cfg -> sched_time_ok sc ->
+  multi_init A cfg = Ok s0 -> multi_run s0 sc = (s', r) ->
+  forall i st, nth_error (sys_st s') i = Some st ->
+  forall now busy nb rxb f f' o calls,
+  In (SPoll now busy nb rxb f f' o calls) (st_log st) ->
+  kind_of (f_state f) <> KClaimToken -> kind_of (f_state f') = KClaimToken ->
+  (length rxb <= f_pending f)%nat /\
+  exists l, f_lba f = Some l /\ l < now /\ token_lost_timeout (st_p st) <= now - l.
+Proof.
+  intros HM Ha Hv Hs E0 E i st Hst now busy nb rxb f f' o calls Hin Hk Hk'.
+  destruct (multi_run_station_transcripts A ops M _ _ _ _ _ E0 E _ _ Hst) as (_ & _ & Hp & _).
+  rewrite Forall_forall in Hp. destruct (Hp _ Hin) as (apps & apps' & Ep).
+  destruct (multi_run_records_rep A ops M HM Ha _ _ _ _ _ Hv Hs E0 E _ _ Hst _ _ _ _ _ _ _ _ Hin) as (HR & Hfp).
+  destruct (bv_timeouts _ (rep_p _ _ HR)) as (_ & H2). rewrite <- Hfp.
+  exact (claim_needs_silence A ops _ _ _ _ _ _ _ _ H2 Hk Ep Hk').
+Qed.
+
+(* No hypotheses: a station that holds the token and waits for an answer and finds a complete telegram that
+   is not this answer - e.g. ANY token telegram of another station - gives the token up in that poll:
+   ActiveIdle, nothing transmitted, no application called, ring view unchanged (C06_backoff). *)
+Theorem multi_c06_backoff cfg s0 sc s' r :
+  multi_init A cfg = Ok s0 -> multi_run s0 sc = (s', r) ->
+  forall i st, nth_error (sys_st s') i = Some st ->
+  forall now busy nb rxb f f' o calls t n,
+  In (SPoll now busy nb rxb f f' o calls) (st_log st) ->
+  unexpected_for f t -> busy = false -> C11Proofs.predicted f now = false ->
+  DecodeSpec.decode_spec rxb = Accept t n ->
+  f_state f' = ActiveIdle None None 0 /\ o = mkPhyOut None (skipn n rxb) /\ calls = [] /\ f_ring f' = f_ring f.
+Proof.
+  intros E0 E i st Hst now busy nb rxb f f' o calls t n Hin Hu Hb Hpr Hd.
+  destruct (multi_run_station_transcripts A ops M _ _ _ _ _ E0 E _ _ Hst) as (_ & _ & Hp & _).
+  rewrite Forall_forall in Hp. destruct (Hp _ Hin) as (apps & apps' & Ep).
+  destruct (backoff A ops f now (mkPhyIn busy rxb) apps t n f' o apps' calls Hu Hb Hpr Hd Ep) as (H1 & H2 & H3 & _ & H5 & _). tauto.
+Qed.
+
+End ComposedD.
